@@ -93,3 +93,12 @@ claim(
     "abstract interpretation of one solver step to rational normal forms over a stencil domain; sibling comparison under the axis-relabelling group action (polynomial identity)",
     "DESIGN.md §5 C08",
 )
+
+claim(
+    "C10",
+    "other",
+    "Decides the algebraic form linearity needs. Sources: update_E/update_H of every exported source class are abstractly interpreted (plane TFSF over 3 axes x material tiers x real/complex incident fields x raw/filtered H profile x direction/inverse; the box source over several faces; the point dipole over type x polarisation x tilt x tiers x sampled/unsampled medium) and the injected increment must be homogeneous of degree exactly 1 in static_amplitude_factor and of degree 0 in the fields; a def-use rule shows the additive .at[].add form per class. Solver: every output of one forward step (E, H, CPML memory) on symbolic scenes (tiers, losses, full tensors, metric, CPML, walls, periodic) is homogeneous of degree 1 jointly in (E, H, psi, source terms), and the coefficient of each source's term is free of every other source's term and on/off indicator, for three source orders mixing default and scheduled switches. Detectors: field and phasor records have degree 1, energy and Poynting records degree exactly 2 in (E, H). Round-off over many steps is not decided.",
+    TB + "; sa/degree.py degree domain (abs/real/imag/conj positively homogeneous, other opaque functions of the fields non-polynomial); sa/tfsf.py source harness; abstract source model of C02 in the solver step",
+    "abstract interpretation to rational normal forms + degree (homogeneity) domain; symbolic derivative for cross-source independence; syntax-tree def-use rule",
+    "DESIGN.md §5 C10",
+)
